@@ -12,6 +12,7 @@
                                      are only required not to use the two keys _init_class_dict copies
      clazz._ignore_none              present iff the class body set it or a base class has it ([inh]: what the
                                      bases give): the class's own value, else the inherited one
+     clazz._enable_undefined_value   present iff the class sees the attribute ([eu]: own or inherited value)
      clazz._field_by_name            name -> the Field / Constant OBJECT "field:<name>", in the order of k_all k
      clazz._required                 k_required k
    The object "field:<n>" has the attribute _default iff member n is a Field (a Constant has none): None when
@@ -55,9 +56,11 @@ Definition included_attrs : list pystr := [n_fields; n_defaults].
 
 Definition own_core (k : klass) : list (pystr * pyval) := [(n_fields, dv_names (map fst (k_own k)))].
 
-(* what _init_class_dict returns: the copied keys, then _ignore_none as the class sees it ([ign]) *)
-Definition init_core (k : klass) (ign : option bool) : list (pystr * pyval) :=
-  own_core k ++ match ign with Some b => [(n_ignore_none, PBool b)] | None => [] end.
+(* what _init_class_dict returns: the copied keys, then _ignore_none ([ign]) and _enable_undefined_value ([eu])
+   as the class sees them *)
+Definition init_core (k : klass) (ign eu : option bool) : list (pystr * pyval) :=
+  own_core k ++ match ign with Some b => [(n_ignore_none, PBool b)] | None => [] end
+             ++ match eu with Some b => [(n_enable_undefined, PBool b)] | None => [] end.
 
 Definition own_dict (k : klass) (pre post : list (pystr * pyval)) : list (pystr * pyval) :=
   pre ++ own_core k ++ post.
@@ -65,7 +68,7 @@ Definition own_dict (k : klass) (pre post : list (pystr * pyval)) : list (pystr 
 Definition field_by_name (k : klass) : list (pystr * pyval) :=
   map (fun nm => (fst nm, fld_ref (fst nm))) (k_all k).
 
-Definition klass_heap (k : klass) (inh : option bool) (pre post : list (pystr * pyval)) : heap :=
+Definition klass_heap (k : klass) (inh eu : option bool) (pre post : list (pystr * pyval)) : heap :=
   fun o a =>
     if pystr_eqb o o_clazz then
       if pystr_eqb a (isinstance_attr (s2p "StructMeta")) then Some (PBool (k_is_struct k))
@@ -75,6 +78,8 @@ Definition klass_heap (k : klass) (inh : option bool) (pre post : list (pystr * 
       else if pystr_eqb a n_required then Some (dv_names (k_required k))
       else if pystr_eqb a n_ignore_none then
         match effective_ignore_none inh k with Some b => Some (PBool b) | None => None end
+      else if pystr_eqb a n_enable_undefined then
+        match eu with Some b => Some (PBool b) | None => None end
       else None
     else
       match strip_prefix fld_prefix o with
@@ -133,17 +138,22 @@ Fixpoint decode_names (l : list pyval) : option (list pystr) :=
   | _ => None
   end.
 
-Record dec := { dc_members : members; dc_required : option (list pystr); dc_ignore : option bool }.
+Record dec := { dc_members : members; dc_required : option (list pystr); dc_ignore : option bool;
+                dc_undefined : option bool }.
 
-Definition dec_empty : dec := {| dc_members := []; dc_required := None; dc_ignore := None |}.
+Definition dec_empty : dec := {| dc_members := []; dc_required := None; dc_ignore := None; dc_undefined := None |}.
 Definition dec_add_member (nm : pystr * member) (d : dec) : dec :=
-  {| dc_members := nm :: dc_members d; dc_required := dc_required d; dc_ignore := dc_ignore d |}.
+  {| dc_members := nm :: dc_members d; dc_required := dc_required d; dc_ignore := dc_ignore d;
+     dc_undefined := dc_undefined d |}.
 Definition dec_set_required (r : list pystr) (d : dec) : dec :=
-  {| dc_members := dc_members d; dc_required := Some r; dc_ignore := dc_ignore d |}.
+  {| dc_members := dc_members d; dc_required := Some r; dc_ignore := dc_ignore d; dc_undefined := dc_undefined d |}.
 Definition dec_set_ignore (b : bool) (d : dec) : dec :=
-  {| dc_members := dc_members d; dc_required := dc_required d; dc_ignore := Some b |}.
+  {| dc_members := dc_members d; dc_required := dc_required d; dc_ignore := Some b; dc_undefined := dc_undefined d |}.
+Definition dec_set_undefined (b : bool) (d : dec) : dec :=
+  {| dc_members := dc_members d; dc_required := dc_required d; dc_ignore := dc_ignore d; dc_undefined := Some b |}.
 
-(* the entries of the class dict, in order: "_required" must be a list of names, "_ignore_none" a bool,
+(* the entries of the class dict, in order: "_required" must be a list of names, "_ignore_none" and
+   "_enable_undefined_value" a bool,
    "_fields" is overwritten by StructMeta.__new__ whatever it holds, every other entry must be one of the
    source's Field / Constant objects (it becomes a member, in dict order); anything else is not a class
    statement of the model *)
@@ -159,6 +169,8 @@ Fixpoint decode_entries (k : klass) (kv : list (pyval * pyval)) : res dec :=
         end
       else if pystr_eqb key n_ignore_none then
         match v with PBool b => Ok (dec_set_ignore b r) | _ => Raise Unmodelled end
+      else if pystr_eqb key n_enable_undefined then
+        match v with PBool b => Ok (dec_set_undefined b r) | _ => Raise Unmodelled end
       else if pystr_eqb key n_fields then Ok r
       else match decode_member k v with
            | Some m => Ok (dec_add_member (key, m) r)
@@ -175,7 +187,18 @@ Definition decode_newclass (k : klass) (v : pyval) : res classstmt :=
         d <- decode_entries k kv ;;
         Ok {| s_name := name; s_bases := [n_Structure]; s_members := as_objs (dc_members d);
               s_required := dc_required d; s_optional := None; s_additional := None;
-              s_ignore_none := dc_ignore d; s_attrs := []; s_keys_of := [] |}
+              s_ignore_none := dc_ignore d; s_attrs := undefined_attrs (dc_undefined d); s_keys_of := [] |}
+      else Raise Unmodelled
+  | _ => Raise Unmodelled
+  end.
+
+(* the VALUE of "_enable_undefined_value" in the class dict handed to type(...) (a class statement only says
+   `name = <bool>`): None when the dict has no such entry *)
+Definition newclass_undefined (k : klass) (v : pyval) : res (option bool) :=
+  match v with
+  | PTuple [PStr tag; PStr name; PTuple [POther t b]; PDict kv] =>
+      if pystr_eqb tag new_class_tag && pystr_eqb t ref_tag && pystr_eqb b n_Structure then
+        d <- decode_entries k kv ;; Ok (dc_undefined d)
       else Raise Unmodelled
   | _ => Raise Unmodelled
   end.
